@@ -102,8 +102,8 @@ def _pre_addition(*tensors):
         mask_needed = mask_needed or mask_needed_ab
 
     if mask_needed:
-        tensors = [ten.consume_transpose() for ten in tensors]  # _embed_tensor and hfs below address native legs
-        legss = [tensor.get_legs(native=True) for tensor in tensors]
+        inv = sorted(range(a.ndim_n), key=a.trans.__getitem__)  # all tensors share a.trans here; get_legs follows logical order,
+        legss = [[legs[i] for i in inv] for legs in (tensor.get_legs(native=True) for tensor in tensors)]  # _embed_tensor and hfs address native legs
         ulegs = {n: legs_union(*(legs[n] for legs in legss)) for n in range(a.ndim_n)}
         hfs = tuple(ulegs[n].hf for n in range(a.ndim_n))
         tensors = [_embed_tensor(tensor, legs, ulegs) for tensor, legs in zip(tensors, legss)]
